@@ -52,9 +52,15 @@ def observe(cls, rec):
     if not v:
         return (False,)
     try:
-        out = [True, str(e.overhang_start()), str(e.overhang_end()), str(e.target_sequence().seq)]
+        before = (str(rec.seq), len(rec.features), sorted(rec.annotations), rec.id)
+        t1 = str(e.target_sequence().seq)            # asked first ...
+        out = [True, str(e.overhang_start()), str(e.overhang_end()), str(e.target_sequence().seq)]   # ... and again after the overhangs
         if gen.is_vector_class(cls):
             out.append(str(e.placeholder_sequence().seq))
+        if t1 != out[3] or (str(e.overhang_start()), str(e.overhang_end())) != (out[1], out[2]):
+            return ("unstable", "the same accessor of one entity answered differently when asked again", t1[:40], out[3][:40])
+        if (str(rec.seq), len(rec.features), sorted(rec.annotations), rec.id) != before:
+            return ("mutated", "typing accessors modified the record they were given")
         return tuple(out)
     except Exception as ex:
         return ("raises", type(ex).__name__, str(ex)[:100])
@@ -122,7 +128,7 @@ def check_record(st, fam, cls, s, rots, constructions, scn_base):
         st.goal("rejected-stays-rejected")
         return
     if ref is not None and tuple(obs0[:4]) != ref:
-        what = "verdict" if obs0[0] is not True else ("overhang" if obs0[1:3] != ref[1:3] else "target")
+        what = ("accessors-" + str(obs0[0])) if obs0[0] in ("unstable", "mutated", "raises") else "verdict" if obs0[0] is not True else ("overhang" if obs0[1:3] != ref[1:3] else "target")
         st.violation(fam, "differs-from-reference-at-rotation-0-" + what, dict(scn_base, rotation=0), ref, obs0)
     if obs0[0] is True and gen.is_vector_class(cls):
         st.goal(fam + ":vector")
@@ -137,7 +143,9 @@ def check_record(st, fam, cls, s, rots, constructions, scn_base):
             if r % n and obs0[0] is True:
                 st.nontrivial += 1
             if o != obs0:
-                if o[0] != obs0[0]:
+                if o[0] in ("unstable", "mutated", "raises") and obs0[0] is True:
+                    cause = "accessors-{}-under-rotation".format(o[0])
+                elif o[0] != obs0[0]:
                     cause = "verdict-changes-under-rotation"
                 elif o[1:3] != obs0[1:3]:
                     cause = "overhang-changes-under-rotation"
